@@ -1,17 +1,236 @@
 package govc
 
 import (
+	"fmt"
+	"go/types"
+
 	"golang.org/x/tools/go/ssa"
 )
 
-// Maps, range-over-map and range-over-string: not yet in the verified subset.
+// Maps: a map value is a reference (0 = nil). Heap "M:<maptype>" : ref -> (key -> Opt(value)),
+// heap "ML:<maptype>" : ref -> number of entries. Row 0 is the empty map (reads of a nil map).
 
-func (u *Unit) mapLen(s *State, m Value) *Term                          { u.unsup("len(map)"); return nil }
-func (u *Unit) execMakeMap(s *State, f *Frame, x *ssa.MakeMap)          { u.unsup("make(map)") }
-func (u *Unit) execMapUpdate(s *State, f *Frame, x *ssa.MapUpdate)      { u.unsup("map update") }
-func (u *Unit) execLookup(s *State, f *Frame, x *ssa.Lookup)            { u.unsup("map lookup") }
-func (u *Unit) execRange(s *State, f *Frame, x *ssa.Range)              { u.unsup("range over map/string") }
-func (u *Unit) execNext(s *State, f *Frame, x *ssa.Next) []*State       { u.unsup("range over map/string"); return nil }
-func (u *Unit) execMapDelete(s *State, f *Frame, x *ssa.Call, a []Value) { u.unsup("delete(map)") }
-func (u *Unit) specMapIndex(env *SpecEnv, base Value, idx *Term) Value  { u.specErr("map index in contract"); return Value{} }
-func (u *Unit) specMapLen(env *SpecEnv, m Value) *Term                  { u.specErr("len(map) in contract"); return nil }
+func (u *Unit) optDT(v types.Type) *DT {
+	vs := u.W.SortOf(v)
+	name := "Opt_" + sanitize(vs)
+	if d, ok := u.W.dts[name]; ok {
+		return d
+	}
+	return u.W.regDT(&DT{Name: name, Ctor: "mk-" + name, Fields: []DTField{{name + "_ok", "Bool"}, {name + "_val", vs}}})
+}
+
+func (u *Unit) mapHeaps(s *State, mt types.Type) (mkey, lkey string, m, l *Term) {
+	mp := mt.Underlying().(*types.Map)
+	ks := u.W.SortOf(mp.Key())
+	od := u.optDT(mp.Elem())
+	tk := TypeKey(mt)
+	mkey, lkey = "M:"+tk, "ML:"+tk
+	rowSort := ArraySort(ks, od.Name)
+	get := func(key, sort string) *Term {
+		if h, ok := s.Heaps[key]; ok {
+			return h
+		}
+		name := "H0_" + sanitize(key)
+		if !u.W.declared[name] {
+			u.W.Declare(name, fmt.Sprintf("(declare-const %s %s)", name, sort))
+			h := Leaf(name, sort)
+			if key == mkey {
+				k := Leaf("k!m", ks)
+				u.W.decls = append(u.W.decls, "(assert "+Forall([]*Term{k}, Not(Sel(od, 0, Select(Select(h, IntLit(0)), k))), Select(Select(h, IntLit(0)), k)).String()+")")
+			} else {
+				r := Leaf("r!m", "Int")
+				u.W.decls = append(u.W.decls, "(assert (= (select "+name+" 0) 0))",
+					"(assert "+Forall([]*Term{r}, Ge(Select(h, r), IntLit(0)), Select(h, r)).String()+")")
+			}
+		}
+		h := Leaf(name, sort)
+		s.Heaps[key] = h
+		if s.Entry != nil {
+			if _, ok := s.Entry.Heaps[key]; !ok {
+				s.Entry.Heaps[key] = h
+			}
+		}
+		return h
+	}
+	if u.mapTypes == nil {
+		u.mapTypes = map[string]types.Type{}
+	}
+	u.mapTypes[mkey] = mt
+	m = get(mkey, ArraySort("Int", rowSort))
+	l = get(lkey, ArraySort("Int", "Int"))
+	return
+}
+
+func (u *Unit) mapLen(s *State, mv Value) *Term {
+	_, _, _, l := u.mapHeaps(s, mv.Ty)
+	return Select(l, u.term(s, mv))
+}
+
+func (u *Unit) execMakeMap(s *State, f *Frame, x *ssa.MakeMap) {
+	mp := x.Type().Underlying().(*types.Map)
+	mkey, lkey, m, l := u.mapHeaps(s, x.Type())
+	od := u.optDT(mp.Elem())
+	ref := u.allocRef(s)
+	ks := u.W.SortOf(mp.Key())
+	empty := u.fresh(s, "emptymap", ArraySort(ks, od.Name))
+	k := Leaf("k!e", ks)
+	s.assume(Forall([]*Term{k}, Not(Sel(od, 0, Select(empty, k))), Select(empty, k)))
+	u.setHeap(s, mkey, Store(m, ref, empty))
+	u.setHeap(s, lkey, Store(l, ref, IntLit(0)))
+	f.Vals[x] = Value{T: ref, Ty: x.Type()}
+}
+
+func (u *Unit) execMapUpdate(s *State, f *Frame, x *ssa.MapUpdate) {
+	mv := u.val(s, f, x.Map)
+	ref := u.term(s, mv)
+	mp := x.Map.Type().Underlying().(*types.Map)
+	od := u.optDT(mp.Elem())
+	mkey, lkey, m, l := u.mapHeaps(s, x.Map.Type())
+	u.check(s, "nil", x, "assignment to entry in nil map", Not(Eq(ref, IntLit(0))))
+	k := u.term(s, u.val(s, f, x.Key))
+	v := u.term(s, u.val(s, f, x.Value))
+	u.frameCheck(s, mkey, ref, nil, x)
+	row := Select(m, ref)
+	was := Sel(od, 0, Select(row, k))
+	u.setHeap(s, mkey, Store(m, ref, Store(row, k, Mk(od, True, v))))
+	u.setHeap(s, lkey, Store(l, ref, Ite(was, Select(l, ref), Add(Select(l, ref), IntLit(1)))))
+}
+
+func (u *Unit) execMapDelete(s *State, f *Frame, x *ssa.Call, args []Value) {
+	ref := u.term(s, args[0])
+	mp := args[0].Ty.Underlying().(*types.Map)
+	od := u.optDT(mp.Elem())
+	mkey, lkey, m, l := u.mapHeaps(s, args[0].Ty)
+	k := u.term(s, args[1])
+	row := Select(m, ref)
+	was := Sel(od, 0, Select(row, k))
+	u.frameCheck(s, mkey, ref, nil, x)
+	// delete on a nil map is a no-op; row 0 stays empty because `was` is false there
+	u.setHeap(s, mkey, Ite(Eq(ref, IntLit(0)), m, Store(m, ref, Store(row, k, Mk(od, False, u.W.Zero(mp.Elem()))))))
+	u.setHeap(s, lkey, Ite(And(was, Not(Eq(ref, IntLit(0)))), Store(l, ref, Sub(Select(l, ref), IntLit(1))), l))
+}
+
+func (u *Unit) execLookup(s *State, f *Frame, x *ssa.Lookup) {
+	mv := u.val(s, f, x.X)
+	if isString(x.X.Type()) {
+		st := u.term(s, mv)
+		idx := u.term(s, u.val(s, f, x.Index))
+		u.check(s, "idx", x, "string index out of range", And(Le(IntLit(0), idx), Lt(idx, u.W.StrLen(st))))
+		c := u.named(s, "ch", Select(u.W.StrChars(st), idx))
+		s.assume(And(Le(IntLit(0), c), Le(c, IntLit(255))))
+		f.Vals[x] = Value{T: c, Ty: x.Type()}
+		return
+	}
+	ref := u.term(s, mv)
+	mp := x.X.Type().Underlying().(*types.Map)
+	od := u.optDT(mp.Elem())
+	_, _, m, _ := u.mapHeaps(s, x.X.Type())
+	k := u.term(s, u.val(s, f, x.Index))
+	e := Select(Select(m, ref), k)
+	ok := u.named(s, "mapok", Sel(od, 0, e))
+	val := Ite(ok, Sel(od, 1, e), u.W.Zero(mp.Elem()))
+	if needsWF(mp.Elem()) {
+		val = u.named(s, "mapval", val)
+		s.assume(u.wf(s, mp.Elem(), val))
+	}
+	v := Value{T: val, Ty: mp.Elem()}
+	if x.CommaOk {
+		f.Vals[x] = Value{Tup: []Value{v, {T: ok, Ty: boolType}}, Ty: x.Type()}
+	} else {
+		f.Vals[x] = v
+	}
+}
+
+// iterators of range-over-map / range-over-string
+type iterState struct {
+	Pos   *Term // string: byte position; map: unused
+	IsStr bool
+	X     Value
+}
+
+func (u *Unit) execRange(s *State, f *Frame, x *ssa.Range) {
+	v := u.val(s, f, x.X)
+	it := &iterState{X: v}
+	if isString(x.X.Type()) {
+		it.IsStr = true
+		it.Pos = IntLit(0)
+	}
+	if f.Iters == nil {
+		f.Iters = map[ssa.Value]*iterState{}
+	}
+	f.Iters[x] = it
+	f.Vals[x] = Value{T: IntLit(0), Ty: x.Type()}
+}
+
+func (u *Unit) execNext(s *State, f *Frame, x *ssa.Next) []*State {
+	it := f.Iters[x.Iter]
+	if it == nil {
+		u.unsup("next without range")
+	}
+	w := u.W
+	if x.IsString {
+		st := u.term(s, it.X)
+		ok := u.named(s, "itok", Lt(it.Pos, w.StrLen(st)))
+		width := u.fresh(s, "runew", "Int")
+		r := u.fresh(s, "rune", "Int")
+		s.assume(Implies(ok, And(Le(IntLit(1), width), Le(width, IntLit(4)), Le(Add(it.Pos, width), w.StrLen(st)),
+			Le(IntLit(0), r), Le(r, IntLit(0x10FFFF)),
+			Eq(Eq(width, IntLit(1)), Or(Lt(r, IntLit(128)), Eq(r, IntLit(0xFFFD)))),
+			Implies(Lt(r, IntLit(128)), Eq(r, Select(w.StrChars(st), it.Pos))))))
+		idx := it.Pos
+		nit := *it
+		nit.Pos = u.named(s, "itpos", Ite(ok, Add(it.Pos, width), it.Pos))
+		f.Iters[x.Iter] = &nit
+		f.Vals[x] = Value{Tup: []Value{{T: ok, Ty: boolType}, {T: idx, Ty: intType}, {T: r, Ty: types.Typ[types.Rune]}}, Ty: x.Type()}
+		return nil
+	}
+	// map: an arbitrary entry currently in the map, or exhaustion
+	mp := it.X.Ty.Underlying().(*types.Map)
+	od := u.optDT(mp.Elem())
+	_, _, m, l := u.mapHeaps(s, it.X.Ty)
+	ref := u.term(s, it.X)
+	ok := u.fresh(s, "itok", "Bool")
+	k := u.symbolic(s, "itkey", mp.Key())
+	e := Select(Select(m, ref), k.T)
+	s.assume(Implies(ok, And(Sel(od, 0, e), Gt(Select(l, ref), IntLit(0)), Not(Eq(ref, IntLit(0))))))
+	val := u.named(s, "itval", Sel(od, 1, e))
+	if needsWF(mp.Elem()) {
+		s.assume(Implies(ok, u.wf(s, mp.Elem(), val)))
+	}
+	f.Vals[x] = Value{Tup: []Value{{T: ok, Ty: boolType}, k, {T: val, Ty: mp.Elem()}}, Ty: x.Type()}
+	return nil
+}
+
+func (u *Unit) specMapIndex(env *SpecEnv, base Value, idx *Term) Value {
+	mp := base.Ty.Underlying().(*types.Map)
+	od := u.optDT(mp.Elem())
+	m := u.specMapHeap(env, base.Ty, true)
+	e := Select(Select(m, base.T), idx)
+	return Value{T: Ite(Sel(od, 0, e), Sel(od, 1, e), u.W.Zero(mp.Elem())), Ty: mp.Elem()}
+}
+
+func (u *Unit) specMapLen(env *SpecEnv, mv Value) *Term {
+	l := u.specMapHeap(env, mv.Ty, false)
+	return Select(l, mv.T)
+}
+
+func (u *Unit) specMapHeap(env *SpecEnv, mt types.Type, content bool) *Term {
+	st := env.s
+	if env.useOld {
+		// evaluate against the old heaps through a shadow state
+		st = &State{Heaps: env.heaps(), Entry: env.s.Entry}
+	}
+	_, _, m, l := u.mapHeaps(st, mt)
+	if content {
+		return m
+	}
+	return l
+}
+
+// specMapHas: `has(m, k)` in contracts
+func (u *Unit) specMapHas(env *SpecEnv, base Value, idx *Term) *Term {
+	mp := base.Ty.Underlying().(*types.Map)
+	od := u.optDT(mp.Elem())
+	m := u.specMapHeap(env, base.Ty, true)
+	return Sel(od, 0, Select(Select(m, base.T), idx))
+}
